@@ -296,6 +296,25 @@ func churnOp(part, rec string) op {
 	}}
 }
 
+// closeOp: a holder closes its handle (then yields briefly so that a waiting remover can run)
+func closeOp(sess string) op {
+	return op{"close:" + sess, func(w *world) error {
+		s, ok := w.sess[sess]
+		if !ok {
+			return errors.New("no such session")
+		}
+		delete(w.sess, sess)
+		err := s.Close()
+		time.Sleep(3 * time.Millisecond)
+		return err
+	}}
+}
+
+// second handle on a partition under another name (with a session cache: the same cached session)
+func holdOp(sess, part string) op {
+	return op{"hold:" + sess, func(w *world) error { w.session(sess, part); return nil }}
+}
+
 func advance(d time.Duration) op {
 	return op{"adv", func(w *world) error { w.now.Add(int64(d)); return nil }}
 }
@@ -400,6 +419,11 @@ func scenarios() []scenario {
 		out = append(out, scenario{"sesscache-" + sc, config{sk: "simple", ik: "simple", sessCache: sc},
 			[]op{encOp("a", "p0", "x0"), other(encOp("o", "p1", "x1"))},
 			decOp("a", "p0", "x0"), churnOp("p1", "x1")})
+		// two holders of one cached session; it is pushed out of the cache while both hold it; one
+		// holder closes, the other must be able to go on
+		out = append(out, scenario{"sesscache-twoholders-" + sc, config{sk: "simple", ik: "simple", sessCache: sc},
+			[]op{encOp("a", "p0", "x0"), holdOp("b", "p0"), other(encOp("o", "p1", "x1")), churnOp("p1", "x1")},
+			closeOp("a"), decOp("b", "p0", "x0")})
 		// cache hits first (they move entries between the policy's segments), then evictions
 		out = append(out, scenario{"sesscache-hit-" + sc, config{sk: "simple", ik: "simple", sessCache: sc},
 			[]op{other(encOp("o", "p0", "x0")), other(encOp("o", "p1", "x1")), other(encOp("o", "p2", "x2")),
